@@ -428,6 +428,9 @@ def w_dsa(spec, ctx, L):
         structured(ctx, L, K)
         for _ in range(3):
             dsa_constructed(ctx, L, di)
+        for x in (1, 2, K.q - 1, K.q - 2):          # private values at the ends of the range (y = g, g^2, g^-1, g^-2)
+            ctx.count("special_scalar_keys:dsa")
+            random_round(ctx, L, DsaKeys(L, ctx, di, rng, x=x))
     while not ctx.expired():
         if rng.random() < 0.15:
             dsa_constructed(ctx, L, rng.choice(spec["domains"]))
@@ -445,9 +448,18 @@ def w_ecdsa(spec, ctx, L):
         K = EcKeys(L, ctx, curve, rng)
         keys.append(K)
         structured(ctx, L, K)
+        # keys at the ends of the scalar range: the public point is G, 2G, -G, -2G
+        n = L.ec.CURVES[CURVE_NAMES[curve]].n
+        for d in (1, 2, n - 1, n - 2):
+            Ks = EcKeys(L, ctx, curve, rng, d=d)
+            ctx.count("special_scalar_keys:ecdsa")
+            random_round(ctx, L, Ks)
+            random_round(ctx, L, Ks)
     while not ctx.expired():
         if rng.random() < 0.1:
-            keys[rng.randrange(len(keys))] = K = EcKeys(L, ctx, rng.choice(spec["curves"]), rng)
+            cv = rng.choice(spec["curves"])
+            n = L.ec.CURVES[CURVE_NAMES[cv]].n
+            keys[rng.randrange(len(keys))] = K = EcKeys(L, ctx, cv, rng, d=rng.choice([None, None, None, 1, n - 1, 2, n - 2]))
             random_round(ctx, L, K)
         else:
             random_round(ctx, L, rng.choice(keys))
